@@ -14,8 +14,8 @@
 (*    upipe_tblk waiting for its ubuf manager; upipe_time_limit with clock  *)
 (*    and timer; self references; reference counting decides who dies);    *)
 (*  - abstract (~m.det): a holder is a FIFO that may release ANY prefix    *)
-(*    during ANY command (m.n), a discarding holder may drop an arriving   *)
-(*    buffer (m.d), the set of nodes that die is given (m.dead) - used by  *)
+(*    during ANY command (m.n), a discarding holder may drop or keep the   *)
+(*    arriving buffers (m.d, m.k), the dying nodes are given (m.dead): used by *)
 (*    PipeFlow_Trace to judge recorded executions: only order, content,    *)
 (*    routing and conservation are constrained, not the moment.            *)
 (* The sentences of the property are the invariants at the end, over the   *)
@@ -45,7 +45,7 @@ NoPipe == [ex |-> FALSE, k |-> "-", h |-> FALSE, par |-> "-", sq |-> 0, fd |-> "
            a |-> -1, b |-> -1, tg |-> "none", ini |-> FALSE,
            q |-> <<>>, nb |-> 0, pm |-> 0, pb |-> {}, tm |-> -1, um |-> FALSE, pf |-> "-", uc |-> FALSE]
 NoSink == [ex |-> FALSE, h |-> FALSE, acc |-> TRUE, fd |-> "-", blk |-> FALSE, hq |-> 0, rq |-> <<>>]
-DetMode == [det |-> TRUE, n |-> TLCEval([p \in PipeNames |-> 0]), d |-> {}, dead |-> {}]
+DetMode == [det |-> TRUE, n |-> TLCEval([p \in PipeNames |-> 0]), d |-> {}, k |-> {}, dead |-> {}]
 NoGhost == [in |-> TLCEval([p \in PipeNames |-> <<>>]), out |-> TLCEval([p \in PipeNames |-> <<>>]), fr |-> TLCEval([p \in PipeNames |-> <<>>]),
             dup |-> <<>>, ok |-> TRUE]
 Empty == [p |-> TLCEval([x \in PipeNames |-> NoPipe]), s |-> TLCEval([x \in SinkNames |-> NoSink]), now |-> 0, seq |-> 0,
@@ -79,18 +79,24 @@ Live(S) == LET RECURSIVE Sum(_)
                RECURSIVE SumS(_)
                SumS(i) == IF i = 0 THEN 0 ELSE S.s[SN[i]].hq + SumS(i - 1)
            IN Sum(Len(PN)) + SumS(Len(SN))
-\* buffers that can never leave a upipe_buffer: behind a head larger than max_size
-Stuck(S) == LET RECURSIVE Sum(_)
+\* buffers that can never leave: those of a upipe_buffer behind a head larger than max_size, and those of
+\* every holder upstream of it (its pump stays blocked by the stuck holder)
+StuckHead(S, p) == LET P == S.p[p] IN P.ex /\ P.k = "buffer" /\ P.q # <<>> /\ IsBuf(Head(P.q))
+                                      /\ Len(Head(P.q)[2].pl) > P.a
+RECURSIVE StuckSet(_, _)
+StuckSet(S, X) == LET Y == X \cup {p \in PipeNames : S.p[p].ex /\ (S.p[p].out \in X
+                                        \/ \E x \in X : S.p[x].ex /\ S.p[x].par = p)}
+                  IN IF Y = X THEN X ELSE StuckSet(S, Y)
+Stuck(S) == LET X == StuckSet(S, {p \in PipeNames : StuckHead(S, p)})
+                RECURSIVE Sum(_)
                 Sum(i) == IF i = 0 THEN 0
-                          ELSE LET P == S.p[PN[i]] IN
-                               (IF P.ex /\ P.k = "buffer" /\ P.q # <<>> /\ Len(Head(P.q)[2].pl) > P.a
-                                THEN NumBufs(P.q) ELSE 0) + Sum(i - 1)
+                          ELSE (IF PN[i] \in X THEN NumBufs(S.p[PN[i]].q) ELSE 0) + Sum(i - 1)
             IN Sum(Len(PN))
 \* the sink at the end of the chain of output helpers starting at p ("-" if none)
 RECURSIVE EndSink(_, _)
 EndSink(S, p) == LET t == S.p[p].out IN
                  IF t \in SinkNames THEN t
-                 ELSE IF t \in PipeNames /\ S.p[t].ex /\ S.p[t].k \in Sync THEN EndSink(S, t) ELSE "-"
+                 ELSE IF t \in PipeNames /\ S.p[t].ex /\ S.p[t].k # "null" THEN EndSink(S, t) ELSE "-"
 \* upipe_buffer: number of leading items that fit in max_size
 RECURSIVE Extend(_, _, _)
 Extend(q, nb, max) == IF nb < Len(q) /\ SumTo(q, nb + 1) <= max THEN Extend(q, nb + 1, max) ELSE nb
@@ -214,7 +220,9 @@ Push(S, n, b, src) ==
                                      !.p[n].pm = IF nb1 > 0 /\ @ = 0 THEN 2 ELSE @]
                 IN IF S.m.det /\ nb1 < Len(q1) THEN AddBlk(S1, src, n) ELSE S1
            [] P.k = "disblo" ->
-                IF (S.m.det /\ Len(P.q) >= P.a) \/ (~S.m.det /\ n \in S.m.d) THEN Free(S0, n, b)
+                \* (abstract layer: the arrivals of one command are all dropped (m.d), all kept (m.k) or follow the rule)
+                IF (S.m.det /\ Len(P.q) >= P.a)
+                   \/ (~S.m.det /\ (n \in S.m.d \/ (n \notin S.m.k /\ Len(P.q) >= P.a))) THEN Free(S0, n, b)
                 ELSE [S0 EXCEPT !.p[n].q = Append(@, <<"b", b>>), !.p[n].pm = IF @ >= 1 THEN 2 ELSE @]
            [] OTHER -> [S0 EXCEPT !.bad = TRUE]
 
@@ -414,12 +422,14 @@ EpiRound(S) ==
     \o <<[op |-> "adv", t |-> 100000]>>
     \o SeqOf([p \in PipeNames |-> IF S.p[p].ex /\ S.p[p].k \in {"buffer", "disblo"}
                                   THEN [i \in 1..(MaxIn + 1) |-> [op |-> "disp", p |-> p]] ELSE <<>>], PN)
-Epilogue(S) ==
+EpiDrain(S) ==
     SeqOf([s \in SinkNames |-> IF S.s[s].ex THEN <<[op |-> "unblock", s |-> s]>> ELSE <<>>], SN)
     \o EpiRound(S) \o EpiRound(S) \o <<[op |-> "drained"]>>
-    \o SeqOf([p \in PipeNames |-> IF S.p[p].ex /\ S.p[p].h THEN <<[op |-> "rel", n |-> p]>> ELSE <<>>], PN)
+EpiRelease(S) ==
+    SeqOf([p \in PipeNames |-> IF S.p[p].ex /\ S.p[p].h THEN <<[op |-> "rel", n |-> p]>> ELSE <<>>], PN)
     \o SeqOf([s \in SinkNames |-> IF S.s[s].ex /\ S.s[s].h THEN <<[op |-> "rel", n |-> s]>> ELSE <<>>], SN)
-Final == RunSeq(st, Epilogue(st), hist)
+Drained == RunSeq(st, EpiDrain(st), hist)
+Final == LET d == Drained IN RunSeq(d[1], EpiRelease(st), d[2])
 
 \* ---- the sentences of the property --------------------------------------------------------
 G == st.g
@@ -455,8 +465,8 @@ DupAll == DupAllIn(st)
 NoLeakIn(S) == \A p \in PipeNames : ~S.p[p].ex => Held(S, p) = <<>>
 NoLeak == NoLeakIn(st)
 \* the detailed layer never leaves a holder stuck: after the epilogue nothing is alive
-DrainedOK == CheckEpi => LET h == Final[2] IN
-                \A i \in 1..Len(h) : h[i].c.op = "drained" => h[i].r.live <= Stuck(st)
+\* once everything is unblocked, answered and dispatched only what can never leave is still held
+DrainedOK == CheckEpi => LET d == Drained[1] IN Live(d) <= Stuck(d)
 EpilogueClean == CheckEpi => LET f == Final[1] IN
                     /\ Live(f) = 0 /\ ExactlyOnceIn(f) /\ InOrderIn(f) /\ DupAllIn(f) /\ NoLeakIn(f)
                     /\ \A p \in PipeNames : ~f.p[p].ex
